@@ -28,14 +28,22 @@ theorem localOK_mediaType (T : Table) (o : Opts) (a : Attrs) (kids : List (Strin
        generalize examplesGivenOK _ = C
        cases A <;> cases C <;> cases X <;> cases o.exDisabled <;> simp)
 
-/-- header objects: the rules are the code's checks plus the extra-field rule the code lacks -/
+/-- the example rule of a header object under the options -/
+def headerExampleClause (o : Opts) (d : Doc) : Bool :=
+  !(d.attrs.flag "hasSchema" && !(exampleOK d && examplesGivenOK d)) || o.exDisabled
+
+/-- header objects: the rules are the code's checks plus the example rule and the extra-field rule the
+code lacks -/
 theorem rulesOK_header (T : Table) (o : Opts) (a : Attrs) (kids : List (String Ã— Doc)) (hT : TableOK T = true) :
-    rulesOK o (.node .header a kids) = (localOK T o (.node .header a kids) && extKeysOK o a.exts) := by
+    rulesOK o (.node .header a kids) =
+      (localOK T o (.node .header a kids) && headerExampleClause o (.node .header a kids) && extKeysOK o a.exts) := by
   have hf := tableFacts T hT
   have hx : checkExt T o (.node .header a kids) = true := by
     simp [checkExt, hasCheck, Doc.kind, hf.header, anyHolds]
-  simp (disch := decide) only [localOK, rulesOK, violations, Doc.kind, Doc.attrs, headerOKCode, List.all_append, all_when,
-    extra_all, hx, enabled_plain]
+  simp (disch := decide) only [localOK, rulesOK, violations, Doc.kind, Doc.attrs, headerOKCode, exampleViols, headerExampleClause,
+    List.all_append, all_when, extra_all, hx, enabled_plain]
+  simp only [enabled]
+  generalize (a.flag "hasSchema" && !(exampleOK _ && examplesGivenOK _)) = E
   by_cases c1 : a.str "name" = ""
   case neg => simp [c1]
   by_cases c2 : a.str "in" = ""
@@ -49,7 +57,7 @@ theorem rulesOK_header (T : Table) (o : Opts) (a : Attrs) (kids : List (String Ã
   Â· simp [c1, c2, c3, c5]
   by_cases c6 : a.num "content" > 1
   Â· simp [c1, c2, c3, c5, c6]
-  rcases c3 with c3 | c3 <;> simp [c1, c2, c3, c5, c6]
+  rcases c3 with c3 | c3 <;> cases E <;> cases o.exDisabled <;> simp [c1, c2, c3, c5, c6]
 
 theorem rulesOK_inner (T : Table) (o : Opts) (a : Attrs) (kids : List (String Ã— Doc)) :
     rulesOK o (.node .innerSchemaRef a kids) = (refSibsOK o a && localOK T o (.node .innerSchemaRef a kids)) := by
